@@ -2,6 +2,6 @@ SPECIFICATION Spec
 CONSTANTS
   KDCs = {"k1", "k2"}
   Deadline = 2
-INVARIANTS RejectedUntouched OnlyTheMessageIsSent ReplyIsAKdcReply SuccessOnlyWhenAnswered
+INVARIANTS RejectedUntouched OnlyTheMessageIsSent OnlyToTheRealmsKdcs ReplyIsAKdcReply SuccessOnlyWhenAnswered
 PROPERTIES AlwaysAnswers
 CHECK_DEADLOCK FALSE
